@@ -90,6 +90,7 @@ class Rec:
         self.nshards = nshards
         self.evaluations = 0
         self.distinct = set()
+        self.distinct_extra = 0   # distinct non-trivial cases counted exactly without a digest (enumerated planes)
         self.counters = collections.Counter()
         self.samples = []
         self.violations = []
@@ -141,7 +142,8 @@ class Rec:
 
     def dump(self):
         return {
-            "evaluations": self.evaluations, "distinct": sorted(self.distinct), "counters": dict(self.counters),
+            "evaluations": self.evaluations, "distinct": sorted(self.distinct), "distinct_extra": self.distinct_extra,
+            "counters": dict(self.counters),
             "samples": self.samples, "violations": self.violations, "inconclusive": self.inconclusive,
             "extra": self.extra, "wall_s": time.time() - self.t0, "shard": self.shard,
         }
@@ -258,11 +260,12 @@ def _run(pid, mod, t, s, a, scratch, t0, cf):
                 results.append(res)
     canary_res = canary
     # ---- merge ---------------------------------------------------------------------------------
-    merged = {"evaluations": 0, "distinct": set(), "counters": collections.Counter(), "samples": [],
+    merged = {"evaluations": 0, "distinct": set(), "distinct_extra": 0, "counters": collections.Counter(), "samples": [],
               "violations": [], "inconclusive": [], "extra": {}, "shards": len(results)}
     for r in sorted(results, key=lambda r: r["shard"]):
         merged["evaluations"] += r["evaluations"]
         merged["distinct"].update(r["distinct"])
+        merged["distinct_extra"] += r.get("distinct_extra", 0)
         merged["counters"].update(r["counters"])
         if len(merged["samples"]) < 4:
             merged["samples"].extend(r["samples"][:1])
@@ -291,7 +294,7 @@ def _run(pid, mod, t, s, a, scratch, t0, cf):
             import traceback
             inconclusive.append("finish() crashed: " + traceback.format_exc()[-800:])
     inconclusive.extend(merged["inconclusive"])
-    ndist = len(merged["distinct"])
+    ndist = len(merged["distinct"]) + merged["distinct_extra"]
     if ndist < mod.MIN_DISTINCT[t]:
         inconclusive.append(f"only {ndist} distinct non-trivial cases observed (minimum {mod.MIN_DISTINCT[t]})")
     # ---- classify violations ------------------------------------------------------------------
